@@ -28,8 +28,12 @@ class SimResult:
 
 
 def run_sim(exe, prog, mode="parallel", threads=2, ckpt=0, gvt=1000, tend=0, stats="-", displog="-",
-            trace_file=None, trace_mask=0, watchdog=20, timeout=60, ranks=1, delay=None, sched=None, sched_log=None, net=None, spin_ns=0):
+            trace_file=None, trace_mask=0, watchdog=20, timeout=60, ranks=1, delay=None, sched=None, sched_log=None, net=None, spin_ns=0, nostate=0, keep_ticking=False):
     env = {"VERIF_WATCHDOG": str(watchdog)}
+    if keep_ticking:
+        env["VERIF_KEEP_TICKING"] = "1"
+    if nostate:
+        env["VERIF_NOSTATE_MOD"] = str(nostate)   # LPs with id % nostate == nostate - 1 never call SetState (harness/app.c)
     if spin_ns:
         env["VERIF_EVENT_SPIN_NS"] = str(spin_ns)
     if delay:
